@@ -71,6 +71,29 @@ class InjectedFault(OSError):
     """The failure raised at the chosen point of the write."""
 
 
+# The ways the operating system refuses a step of the write (disk / inode /
+# quota exhausted, descriptor table full, directory not writable, read-only
+# remount, medium error). ENOENT / EEXIST are left out on purpose: the code
+# under test legitimately treats those as "already gone" / "already there",
+# and a real unlink / mkdir does not report them for the states generated.
+ERRNOS = ('ENOSPC', 'EDQUOT', 'EMFILE', 'ENFILE', 'EACCES', 'EROFS', 'EIO')
+_FAULT_CLASSES = {}
+
+
+def make_fault(errno_name, message):
+    """An InjectedFault that is also the builtin OSError subclass the
+    interpreter would raise for that errno (PermissionError for EACCES ...),
+    so that `except PermissionError` in the code under test sees it."""
+    code = getattr(errno, errno_name)
+    builtin = type(OSError(code, 'x'))
+    cls = _FAULT_CLASSES.get(builtin)
+    if cls is None:
+        cls = InjectedFault if builtin is OSError else type(
+            'InjectedFault_' + builtin.__name__, (InjectedFault, builtin), {})
+        _FAULT_CLASSES[builtin] = cls
+    return cls(code, '%s (%s)' % (message, os.strerror(code)))
+
+
 def task_of(name):
     return name.split('#', 1)[1]
 
@@ -325,9 +348,11 @@ class World(object):
 class Controller(object):
     """Receives the points of the write path."""
 
-    def __init__(self, world, fault_at=None, cuts=(), flush=True):
+    def __init__(self, world, fault_at=None, cuts=(), flush=True,
+                 errno_name='ENOSPC'):
         self.world = world
         self.fault_at = fault_at
+        self.errno_name = errno_name
         self.cuts = list(cuts)
         self.flush = flush
         self.points = []          # (label, raisable)
@@ -350,8 +375,8 @@ class Controller(object):
             raise
         if raisable and self.fault_at == index:
             self.fired = (index, label, self.write_bytes)
-            raise InjectedFault(errno.ENOSPC,
-                                'injected at point %d (%s)' % (index, label))
+            raise make_fault(self.errno_name,
+                             'injected at point %d (%s)' % (index, label))
 
 
 class _StreamProxy(object):
@@ -637,42 +662,68 @@ def agent_step(world, step, ctl, raisable=False):
     return watch.mutations
 
 
-def synchronize(world, ctl):
+def synchronize(world, ctl, check_existing=None):
     """Run the real _synchronize under the hooks; the audit watch also looks
-    at the directory after every other operation (unlink of extras, ...)."""
+    at the directory after every other operation (unlink of extras, ...).
+    check_existing: None = what the case says; True = the first
+    synchronisation of a (re)started agent."""
+    if check_existing is None:
+        check_existing = bool(world.case.get('check_existing'))
     try:
         with Hooks(ctl), AuditWatch(world, ctl, raisable=False):
             # pylint: disable=protected-access
             world.evmgr._synchronize(
                 world.zk, list(world.expected),
-                check_existing=bool(world.case.get('check_existing')))
+                check_existing=check_existing)
     finally:
         if ctl.violation is not None:
             raise ctl.violation
 
 
-def check_after_sync(world, stats):
-    """Oracle of a completed synchronisation."""
+class PrefixedStats(object):
+    """Counters of a secondary run kept apart from those of the main run."""
+
+    def __init__(self, stats, prefix):
+        self._stats = stats
+        self._prefix = prefix
+
+    def count(self, key, num=1):
+        if self._stats is not None:
+            self._stats.count(self._prefix + key, num)
+
+
+def check_after_sync(world, stats, prefix='c12.sync',
+                     where='after the synchronisation', check_existing=None):
+    """Oracle of a completed synchronisation (one that returned normally).
+
+    prefix / where: which synchronisation completed ('c12.sync': a fault free
+    one; 'c12.fault.sync-completed': one in which a step of a file write was
+    made to fail and that returned normally all the same; 'c12.recovery': the
+    first one of the agent restarted after an aborted one).
+    check_existing: whether that synchronisation had to refresh outdated
+    entries (None: what the case says)."""
     case = world.case
+    if check_existing is None:
+        check_existing = bool(case.get('check_existing'))
     visible = world.visible()
     expected = set(world.expected)
     for name in visible:
         if name not in expected:
-            bucket = 'c12.sync.unplaced-entry-left' if name in world.prior \
-                else 'c12.sync.foreign-name'
+            bucket = prefix + ('.unplaced-entry-left' if name in world.prior
+                               else '.foreign-name')
             raise Violation(
-                bucket, 'after the synchronisation the cache names %r, which '
+                bucket, '%s the cache names %r, which '
                 'is not placed on the node (placed: %s)' % (
-                    name, sorted(expected)))
+                    where, name, sorted(expected)))
     for name in sorted(expected):
         inst = world.insts[name]
         new = world.new[name]
         present = name in visible
         if new is not None and not present:
             raise Violation(
-                'c12.sync.placed-without-file',
-                '%r is placed, its placement node and manifest exist, but it '
-                'has no cache file' % name)
+                prefix + '.placed-without-file',
+                '%s %r is placed, its placement node and manifest exist, but '
+                'it has no cache file' % (where, name))
         if not present:
             continue
         data = world.read(name)
@@ -684,20 +735,21 @@ def check_after_sync(world, stats):
             stats.count('files_written')
             if new is None or not typed_equal(parse(data), new):
                 raise Violation(
-                    'c12.sync.written-content',
-                    'file %r written by the synchronisation differs from '
+                    prefix + '.written-content',
+                    '%s file %r written by the synchronisation differs from '
                     'the manifest stored in ZooKeeper merged with the '
                     'placement data and task id: %s' % (
-                        name, first_diff(parse(data), new) if new is not None
+                        where, name,
+                        first_diff(parse(data), new) if new is not None
                         else 'nothing should have been written'))
         else:
             stats.count('files_kept')
-        outdated = (case.get('check_existing') and name in world.prior and
+        outdated = (check_existing and name in world.prior and
                     new is not None and inst.get('rel') == 'after')
         if outdated:
             stats.count('outdated_seen')
             if not typed_equal(parse(data), new):
                 raise Violation(
-                    'c12.sync.outdated-not-refreshed',
-                    'check_existing: %r is older than its placement node but '
-                    'still holds the old content' % name)
+                    prefix + '.outdated-not-refreshed',
+                    '%s check_existing: %r is older than its placement node '
+                    'but still holds the old content' % (where, name))
